@@ -447,12 +447,13 @@ class Wikicode(StringMixIn):
             context, index = self._do_strong_search(obj, recursive)
             context.insert(index.start, value)
         else:
+            obj = parse_anything(obj)  # once: it may be an iterator
             values = self._instances(value)
             for exact, context, index in self._do_weak_search(obj, recursive):
                 if exact:
                     context.insert(index.start, next(values))
                 else:
-                    obj = str(parse_anything(obj))
+                    obj = str(obj)
                     self._slice_replace(
                         context, index, obj, str(parse_anything(next(values))) + obj
                     )
@@ -473,12 +474,13 @@ class Wikicode(StringMixIn):
             context, index = self._do_strong_search(obj, recursive)
             context.insert(index.stop, value)
         else:
+            obj = parse_anything(obj)  # once: it may be an iterator
             values = self._instances(value)
             for exact, context, index in self._do_weak_search(obj, recursive):
                 if exact:
                     context.insert(index.stop, next(values))
                 else:
-                    obj = str(parse_anything(obj))
+                    obj = str(obj)
                     self._slice_replace(
                         context, index, obj, obj + str(parse_anything(next(values)))
                     )
@@ -503,6 +505,7 @@ class Wikicode(StringMixIn):
                 context.nodes.pop(index.start)
             context.insert(index.start, value)
         else:
+            obj = parse_anything(obj)  # once: it may be an iterator
             values = self._instances(value)
             for exact, context, index in self._do_weak_search(obj, recursive):
                 if exact:
@@ -511,7 +514,7 @@ class Wikicode(StringMixIn):
                     context.insert(index.start, next(values))
                 else:
                     self._slice_replace(
-                        context, index, str(parse_anything(obj)), str(parse_anything(next(values)))
+                        context, index, str(obj), str(parse_anything(next(values)))
                     )
 
     def append(self, value):
@@ -540,12 +543,13 @@ class Wikicode(StringMixIn):
             for _ in range(index.start, index.stop):
                 context.nodes.pop(index.start)
         else:
+            obj = parse_anything(obj)  # once: it may be an iterator
             for exact, context, index in self._do_weak_search(obj, recursive):
                 if exact:
                     for _ in range(index.start, index.stop):
                         context.nodes.pop(index.start)
                 else:
-                    self._slice_replace(context, index, str(parse_anything(obj)), "")
+                    self._slice_replace(context, index, str(obj), "")
 
     def matches(self, other):
         """Do a loose equivalency test suitable for comparing page names.
